@@ -44,9 +44,50 @@ pub fn set_schedule_callback(s: Option<Sched>) {
     *SCHED.write().unwrap() = s;
 }
 
-/// Emits an event if a sink is installed
+/// File named by the environment variable `FIDGET_VERIF_TRACE`, if any
+///
+/// When no sink has been installed, events are appended to this file, one
+/// JSON object per line; this records the hook events of programs that know
+/// nothing about the hooks (e.g. the repository's own tests).
+fn trace_file() -> Option<&'static std::sync::Mutex<std::fs::File>> {
+    static FILE: std::sync::OnceLock<Option<std::sync::Mutex<std::fs::File>>> =
+        std::sync::OnceLock::new();
+    FILE.get_or_init(|| {
+        let path = std::env::var_os("FIDGET_VERIF_TRACE")?;
+        std::fs::OpenOptions::new()
+            .create(true)
+            .append(true)
+            .open(path)
+            .ok()
+            .map(std::sync::Mutex::new)
+    })
+    .as_ref()
+}
+
+/// Emits an event if a sink is installed (or a trace file is configured)
 pub fn emit(name: &'static str, fields: &[(&'static str, i64)]) {
     let sink = SINK.read().unwrap().clone();
+    if sink.is_none() {
+        if let Some(f) = trace_file() {
+            use std::io::Write;
+            let seq = SEQ.with(|s| {
+                let v = s.get();
+                s.set(v + 1);
+                v
+            });
+            let mut line = format!(
+                "{{\"name\":\"{name}\",\"pid\":{},\"thread\":{},\"seq\":{seq}",
+                std::process::id(),
+                THREAD.with(|t| *t)
+            );
+            for (k, v) in fields {
+                line.push_str(&format!(",\"{k}\":{v}"));
+            }
+            line.push_str("}\n");
+            let _ = f.lock().unwrap().write_all(line.as_bytes());
+        }
+        return;
+    }
     if let Some(sink) = sink {
         let seq = SEQ.with(|s| {
             let v = s.get();
